@@ -181,6 +181,8 @@ mutual
         if fol.mustNoYield then pure (.go (← cur.push (.block ss) .trivial) [])
         else pure (.go (← cur.pushReturn (.delay (.lam fol.toStmts)) .yieldk) [])
     | .ifs init c thn els, isLast, cur => do
+        -- the init statement is kept in place: a yield there would stay a no-op stub (rejected since daf3130)
+        if optIsYield init then throw "yield not supported"
         let body ← rwStmts q thn (Blk.mk0 .ifk)
         let e ← rwElse q els
         let cur' ← ifPush init c thn els body e cur
@@ -257,6 +259,7 @@ mutual
   /-- rewriteIfStmt: pushes exactly one statement (the original or the rewritten if) -/
   def rwIfS (q : Quirks) : Stmt → Blk → Except String Blk
     | .ifs init c thn els, cur => do
+        if optIsYield init then throw "yield not supported"
         let body ← rwStmts q thn (Blk.mk0 .ifk)
         let e ← rwElse q els
         ifPush init c thn els body e cur
